@@ -51,6 +51,7 @@ FLOWS = {
     "gen3d": _unit_rate(_mat([[0.3, 0.9, -0.4], [-0.2, -0.5, 0.7], [0.6, 0.1, 0.2]])),
     "trace": _unit_rate(_mat([[0.8, 0.5, 0.0], [-0.3, 0.1, 0.4], [0.2, -0.6, -0.3]])),
     "rot": _mat([[0, -1, 0], [1, 0, 0], [0, 0, 0]]),  # pure vorticity: zero strain rate
+    "pure_rot": _mat([[1, -0.7, 0], [0.7, -1, 0], [0, 0, 0]]),  # diagonal strain rate plus a rigid rotation about z
     "ss_int": _mat([[0, 0, 1], [0, 0, 0], [0, 0, 0]]),  # handed to the library as an INTEGER-typed array
 }
 PN_CLASSES = {0: (1.5, 3.5), 1: (1.0, 2.0), 2: (2.0, 5.0)}  # (p, n) classes of par.x[2]
